@@ -97,14 +97,35 @@ func (h *History) Write(s string) (int, error) {
 		return h.Len(), err
 	}
 
-	f, err := os.OpenFile(h.filename, os.O_APPEND|os.O_CREATE|os.O_WRONLY, 0600)
+	f, err := os.OpenFile(h.filename, os.O_APPEND|os.O_CREATE|os.O_RDWR, 0600)
 	if err != nil {
 		return 0, err
+	}
+
+	// If a session died part way through a write then the file ends with an
+	// unterminated line. Terminate it first, otherwise this entry would be
+	// glued onto that line and discarded with it the next time history loads.
+	if !endsWithNewline(f) {
+		b = append([]byte{'\n'}, b...)
 	}
 
 	_, err = f.Write(append(b, '\n'))
 	f.Close()
 	return h.Len(), err
+}
+
+func endsWithNewline(f *os.File) bool {
+	info, err := f.Stat()
+	if err != nil || info.Size() == 0 {
+		return true
+	}
+
+	last := make([]byte, 1)
+	if _, err = f.ReadAt(last, info.Size()-1); err != nil {
+		return true
+	}
+
+	return last[0] == '\n'
 }
 
 // GetLine returns a specific line from the history file
